@@ -2,18 +2,29 @@
 
 R4 (or-group queue discipline) is stated on an *abstract queue* rather than on `VecDeque<(Vec, Vec)>`:
 
-  queue            the field of BuildPlanBuilder that is not one of the two `current_*` lists (whatever its container
-                   type: VecDeque or Vec) — `queue_names`, `is_queue`
+  open group       the two places of the builder provides() / requires() append to, as field paths from self, read from the
+                   adders themselves (`current_slots`): two private lists, or the components of one private record / pair
+                   (`current: Or`, `current: (Vec, Vec)`)
+  queue            the field of BuildPlanBuilder that holds neither of them (whatever its container type: VecDeque or
+                   Vec) — `queue_names`, `is_queue`
   queue effects    VecDeque::push_back / Vec::push on the queue = append at the BACK; push_front / insert = FRONT insert;
                    pop_front / Vec::remove(0) = take from the FRONT; pop_back / Vec::pop / swap_remove / remove(i>0) = take
                    out of order.  Vec operations count only when their (substituted) receiver is the queue — `queue_effects`
-  group record     what is appended: a two-component record carrying current_provides and current_requires — the tuple
+  group record     what is appended: a two-component record carrying exactly the two open-group places — the tuple
                    `(p, r)` (components '0' / '1') or the struct `Or { provides: p, requires: r }` (components 'provides' /
-                   'requires'), each directly or through mem::take / mem::replace — `group_shape`, `roles`
+                   'requires'), each directly or through mem::take / mem::replace, or the private record / pair that holds
+                   both of them as a whole — `group_shape`, `roles`
   consumption      top level <- front.<provides component> / front.<requires component>; every remaining element e, in
                    order, becomes Or{provides <- e.<provides component>, requires <- e.<requires component>}; when the queue
                    already holds `Or` records under the components 'provides' / 'requires', handing the remaining elements
                    through unchanged (collect) is that mapping.
+
+R6 (builders) is stated on *slots*: the private place build() reads each field of the built record from (`state_slots`,
+`read_slots`: an embedded record, one private field per slot, a nested group, private names, an Option read with a
+fallback = lazy slot, an element-wise copy = the list itself).  Adders / setters / new() are checked against those very
+places (`on_slot`), so the private layout is free but a method that changes state build() never reads is not an adder.
+Record literals are read with the field stores made after they were built applied (`fold_updates`: only unconditional,
+single stores; anything else is undecided -> UNPROVEN, never the stale literal value).
 
 R5: `owners` attributes a call site inside private helpers to the public functions they are reachable from; `fd_effects`
 reads the raw file descriptors opened on the paths of a function through helpers (interprocedural effects).
@@ -54,14 +65,42 @@ def _fields(prog, adt):
     return a['variants'][0]['fields']
 
 
+# the two "current group" places of the builder, as field paths from self: where provides() / requires() append
+# (current_slots).  By default the two private lists of the present layout; a builder that keeps the open group as one
+# record (`current: Or`) has (('current', 'provides'), ('current', 'requires')).
+SLOTS = {'P': ('current_provides',), 'R': ('current_requires',)}
+
+
+def current_slots(prog, sl):
+    """(P, R) read from the adders themselves: the place of the one unconditional push of provides() / requires(); the
+    present names when an adder has no such push (R6/BuildPlanBuilder/<adder> reports that)"""
+    out = []
+    for m, dflt in (('provides', ('current_provides',)), ('requires', ('current_requires',))):
+        f = prog.fns.get(BUILDER + '::' + m)
+        got = None
+        if f is not None:
+            S = Summary(prog, sl, f)
+            mp = [e for e in S.on_self(S.must) if e.kind == 'ACC:PUSH' and e.forall is None]
+            if len(mp) == 1:
+                got = tuple(fpath(mp[0].args[0])[1])
+        out.append(got or dflt)
+    if out[0] == out[1]:
+        return ('current_provides',), ('current_requires',)
+    return out[0], out[1]
+
+
+def _current_heads():
+    return {SLOTS['P'][0], SLOTS['R'][0]}
+
+
 def queue_names(prog):
-    ns = {f['name'] for f in _fields(prog, BUILDER) if f['name'] not in CURRENT}
+    ns = {f['name'] for f in _fields(prog, BUILDER) if f['name'] not in _current_heads()}
     return ns or {'acc'}
 
 
 def queue_holds_or(prog):
     """the queue's element type is the written struct `Or` itself"""
-    tys = [f['ty'] for f in _fields(prog, BUILDER) if f['name'] not in CURRENT]
+    tys = [f['ty'] for f in _fields(prog, BUILDER) if f['name'] not in _current_heads()]
     return bool(tys) and all(t.endswith('<' + OR + '>') for t in tys)
 
 
@@ -111,30 +150,47 @@ def _components(v):
     return None
 
 
+def _self_place(x):
+    """field path from the builder (parameter 0) that x denotes — directly or moved out with mem::take / mem::replace"""
+    x = strip(x)
+    if x[0] == 'call' and x[1] in ('std::mem::take', 'std::mem::replace') and x[2]:
+        x = strip(x[2][0])
+    names = []
+    while x[0] == 'field':
+        names.append(x[2])
+        x = strip(x[1])
+    if x[0] == 'param' and x[2] == 0 and names:
+        return tuple(names[::-1])
+    return None
+
+
 def group_shape(v):
-    """{component name: builder field carried} of an appended group record, None when v is not such a record"""
+    """{component name: builder place carried} of an appended group record, None when v is not such a record: a tuple /
+    an Or literal of the two current places, or the record place that holds both of them (`self.current`)"""
     comps = _components(v)
-    if comps is None or len(comps) != 2:
+    if comps is None:
+        whole = _self_place(v)
+        if whole is None:
+            return None
+        return {s_[-1]: s_ for s_ in (SLOTS['P'], SLOTS['R']) if s_[:-1] == whole} or None
+    if len(comps) != 2:
         return None
-    shape = {}
-    for name, x in comps:
-        x = strip(x)
-        if x[0] == 'call' and x[1] in ('std::mem::take', 'std::mem::replace') and x[2]:
-            x = strip(x[2][0])
-        shape[name] = x[2] if x[0] == 'field' and strip(x[1])[0] == 'param' and strip(x[1])[2] == 0 else None
-    return shape
+    return {name: _self_place(x) for name, x in comps}
 
 
 def roles(shape):
-    """(component holding current_provides, component holding current_requires) or (None, None)"""
-    if not shape or sorted(v or '' for v in shape.values()) != sorted(CURRENT):
+    """(component holding the current provides, component holding the current requires) or (None, None)"""
+    if not shape or len(shape) != 2 or set(shape.values()) != {SLOTS['P'], SLOTS['R']}:
         return None, None
     inv = {v: k for k, v in shape.items()}
-    return inv['current_provides'], inv['current_requires']
+    return inv[SLOTS['P']], inv[SLOTS['R']]
 
 
 def all_taken(v):
     comps = _components(v)
+    if comps is None:
+        v = strip(v)
+        return v[0] == 'call' and v[1] == 'std::mem::take' and _self_place(v) is not None
     return bool(comps) and all(strip(x)[0] == 'call' and strip(x)[1] == 'std::mem::take' for _, x in comps)
 
 
@@ -144,6 +200,7 @@ def r4(prog, sl, rep):
     #            both lists empty
     #   build(): on every path first closes the current group the same way (also when it is empty), then takes the
     #            FRONT as the top-level group; nothing is ever pushed at the front or popped from the back
+    SLOTS['P'], SLOTS['R'] = current_slots(prog, sl)
     E = Effects(prog, sl, vocab=QV)
     orf = prog.fn(BUILDER + '::or')
     bf = prog.fn(BUILDER + '::build')
@@ -161,11 +218,16 @@ def r4(prog, sl, rep):
             if isinstance(key, tuple):
                 for d in defs:
                     if d[0] == 'stmt':
-                        fld = [p_ for p_ in d[4][1:] if p_ != '*']
+                        fld = tuple(p_.lstrip('.') for p_ in d[4][1:] if p_ != '*')
                         val = strip(sl._rvalue(f, d[3], set(), 0, None))
-                        if fld and val[0] == 'call' and val[1] in ('std::vec::Vec::<T>::new', 'std::default::Default::default') and f.dominates(e.call.bb, d[1]):
-                            got.add(fld[0])
-        return {'.current_provides', '.current_requires'} <= got
+                        if not fld or not f.dominates(e.call.bb, d[1]):
+                            continue
+                        if val[0] == 'call' and val[1] in ('std::vec::Vec::<T>::new', 'std::default::Default::default'):
+                            got.add(fld)
+                        elif (val[0] == 'agg' and val[3] and all(is_empty_value(x) for _, x in val[3])) or (val[0] == 'tuple' and val[1] and all(is_empty_value(x) for x in val[1])):
+                            # the record / pair that holds both current lists is replaced by an all-empty one
+                            got.add(fld)
+        return all(any(s_[:len(g)] == g for g in got) for s_ in (SLOTS['P'], SLOTS['R']))
 
     om = [e for e in queue_effects(E, prog, orf, 'must') if e.kind == 'QPUSH_BACK']
     pc, rc = roles(group_shape(om[0].path)) if len(om) == 1 else (None, None)
@@ -243,6 +305,8 @@ def r4(prog, sl, rep):
                     ors.append((f, st))
     # Or literals that ARE the appended group record (a queue of Or records) are not conversions of queue elements
     typed = queue_holds_or(prog) and (pc, rc) == ('provides', 'requires')
+    # (an Or literal of two fresh empty lists is the reset value of the open group, not the conversion of a queue element)
+    ors = [(f, st) for f, st in ors if not all(is_empty_value(x) for _, x in sl._rvalue(f, st[2], set(), 0, None)[3])]
     if typed:
         pushed = [(e.call.fn.path, strip(sl.operand(e.call.fn, e.call.args[1]))) for e in bmay + queue_effects(E, prog, orf, 'may') if e.kind == 'QPUSH_BACK']
         ors = [(f, st) for f, st in ors if (f.path, sl._rvalue(f, st[2], set(), 0, None)) not in pushed]
@@ -250,6 +314,21 @@ def r4(prog, sl, rep):
     def elem_roles_ok(p_, r_):
         return p_[0] == 'field' and r_[0] == 'field' and pc is not None and p_[2] == pc and r_[2] == rc and strip(p_[1]) == strip(r_[1])
     how = None
+
+    def loop_each(f):
+        """the one Vec::push inside a loop of f happens on EVERY iteration, and the loop runs to exhaustion: no `continue`
+        around the push, no `break` / `return` out of the body (an empty alternative is an alternative)"""
+        in_loop = [c for c in f.calls if c.name == 'std::vec::Vec::<T, A>::push' and f.in_loop(c.bb)]
+        if len(in_loop) != 1:
+            return False
+        pb = in_loop[0].bb
+        Ls = [L for L in E.loops(f) if pb in L.body]
+        L = min(Ls, key=lambda l: len(l.body)) if Ls else None
+        each = L is not None and all(f.dominates(pb, l) or pb == l for l in L.latches) and getattr(L, 'exhaust', None) is not None \
+            and {b for b in L.exit_bb if f.blocks[b]['t']['t'] != 'unreachable'} <= {L.exhaust[1]}
+        rep.check(each, 'R4', 'build/alternatives-each', '%s:%d' % (f.file, f.line), 'the loop appends one Or per remaining group, for every group',
+                  'build() does not append an Or for every remaining group (conditional push / early exit): an empty alternative is lost')
+        return True
     if typed and not ors:
         # the remaining Or records are handed through unchanged: the `or` field is the collection of the queue's
         # (one and only) iterator, every element, unfiltered
@@ -264,6 +343,16 @@ def r4(prog, sl, rep):
                     and strip(al[0][0]) == strip(iters.elem_of(al[0][1])) and len(srcs) == 1:
                 ok = True
                 how = 'collect of Or records'
+        if not ok:
+            # ... or appended one by one: a push of the current element of the queue's (one and only) iteration onto the
+            # `or` list of the plan, for every element (MUST effect quantified over the queue), and no other push onto it
+            Sb = Summary(prog, sl, bf)
+            onto_or = [e for e in Sb.may if e.args and fpath(e.args[0])[1][-1:] == ['or'] and not rooted_at_self(e.args[0], bf)]
+            if len(onto_or) == 1 and onto_or[0].kind == 'ACC:PUSH' and len(srcs) == 1 and not Sb.extends:
+                ev = peel(sl.inline_deep(onto_or[0].args[1]))
+                if ev[0] == 'call' and ev[1] == 'std::iter::Iterator::next' and len(ev[2]) == 1 and is_queue(prog, ev[2][0]):
+                    how = 'loop over Or records'
+                    ok = loop_each(onto_or[0].call.fn)
     else:
         ok = len(ors) == 1
     if ok and how is None:
@@ -275,18 +364,7 @@ def r4(prog, sl, rep):
         elem = strip(p_[1]) if same else ('unknown',)
         if same and elem[0] == 'call' and elem[1] == 'std::iter::Iterator::next':
             how = 'loop'
-            in_loop = [c for c in f.calls if c.name == 'std::vec::Vec::<T, A>::push' and f.in_loop(c.bb)]
-            ok = len(in_loop) == 1
-            if ok:
-                # ... on EVERY iteration, and the loop runs to exhaustion: no `continue` around the push, no `break` /
-                # `return` out of the body (an empty alternative is an alternative)
-                pb = in_loop[0].bb
-                Ls = [L for L in E.loops(f) if pb in L.body]
-                L = min(Ls, key=lambda l: len(l.body)) if Ls else None
-                each = L is not None and all(f.dominates(pb, l) or pb == l for l in L.latches) and getattr(L, 'exhaust', None) is not None \
-                    and {b for b in L.exit_bb if f.blocks[b]['t']['t'] != 'unreachable'} <= {L.exhaust[1]}
-                rep.check(each, 'R4', 'build/alternatives-each', '%s:%d' % (f.file, f.line), 'the loop appends one Or per remaining group, for every group',
-                          'build() does not append an Or for every remaining group (conditional push / early exit): an empty alternative is lost')
+            ok = loop_each(f)
         elif same and elem[0] == 'param' and f.kind == 'Closure':
             # closure handed to Iterator::map whose result is collected
             parent = prog.fns.get(f.parent)
@@ -482,7 +560,7 @@ def peel(v):
         if v[0] == 'call' and v[1] in CONVERSIONS and len(v[2]) == 1:
             v = v[2][0]
         elif v[0] == 'call' and v[2] and len(v[2]) == 1 and (v[1].endswith(('>::from', '>::into', '>::as_ref', '>::to_string', '>::to_owned', '>::clone',
-                                                                           '::as_bytes', '::as_str', '::into_bytes', '::into_string', '::as_slice'))):
+                                                                           '::as_bytes', '::as_str', '::into_bytes', '::into_string', '::as_slice', '::to_vec', '::into_vec', '::into_boxed_slice'))):
             v = v[2][0]
         else:
             return v
@@ -547,6 +625,8 @@ class Summary:
 
     def __init__(self, prog, sl, fn):
         self.fn = fn
+        self.prog, self.sl = prog, sl
+        self._sites = None
         vocab = {}
         fns = dict(prog.reach([fn]))
         fns[fn.path] = fn
@@ -607,13 +687,15 @@ def _elem_of_param(v, fn, idx):
     return v[0] == 'call' and v[1] == 'std::iter::Iterator::next' and len(v[2]) == 1 and is_param(v[2][0], fn, idx)
 
 
-def check_push(prog, sl, rep, fn, field, subject):
+def check_push(prog, sl, rep, fn, field, subject, slots=None):
+    if _unclear(rep, fn, field, subject, slots, container=True):
+        return
     S = Summary(prog, sl, fn)
     where = '%s:%d' % (fn.file, fn.line)
     rep.analysed(fn)
     mp = S.on_self(S.must)
-    ok = len(mp) == 1 and mp[0].kind == 'ACC:PUSH' and mp[0].forall is None and fpath(mp[0].args[0])[1][-1:] == [field]
-    why = 'no unconditional single push onto .%s' % field
+    ok = len(mp) == 1 and mp[0].kind == 'ACC:PUSH' and mp[0].forall is None and on_slot(fpath(mp[0].args[0])[1], field, slots)
+    why = 'no unconditional single push onto %s' % _slot_str(field, slots)
     if ok:
         v = sl.inline_deep(mp[0].args[1])
         ok = carries(v, fn, 1)
@@ -642,17 +724,19 @@ def _vs(v):
     return vstr(v)[:120]
 
 
-def check_push_each(prog, sl, rep, fn, field, subject):
+def check_push_each(prog, sl, rep, fn, field, subject, slots=None):
+    if _unclear(rep, fn, field, subject, slots, container=True):
+        return
     S = Summary(prog, sl, fn)
     where = '%s:%d' % (fn.file, fn.line)
     rep.analysed(fn)
     mp = S.on_self(S.must)
     ex = S.self_extends()
-    ok, why, how = False, 'no push onto .%s for every element of the argument' % field, None
+    ok, why, how = False, 'no push onto %s for every element of the argument' % _slot_str(field, slots), None
     if len(mp) == 1 and not S.extends:
         e = mp[0]
         how = 'loop'
-        ok = e.kind == 'ACC:PUSH' and e.forall is not None and is_param(e.forall, fn, 1) and fpath(e.args[0])[1][-1:] == [field]
+        ok = e.kind == 'ACC:PUSH' and e.forall is not None and is_param(e.forall, fn, 1) and on_slot(fpath(e.args[0])[1], field, slots)
         if ok:
             v = sl.inline_deep(e.args[1])
             ok = _elem_of_param(v, fn, 1) or (peel(v)[0] == 'agg' and all(_elem_of_param(x, fn, 1) or is_empty_value(x) for _, x in peel(v)[3]))
@@ -662,7 +746,7 @@ def check_push_each(prog, sl, rep, fn, field, subject):
         recv, itv, c, dom = ex[0]
         how = 'extend'
         al = iters.alts(sl, itv)
-        ok = dom and fpath(recv)[1][-1:] == [field] and len(al) == 1 and not al[0][2] and al[0][1] is not None and is_param(al[0][1], fn, 1)
+        ok = dom and on_slot(fpath(recv)[1], field, slots) and len(al) == 1 and not al[0][2] and al[0][1] is not None and is_param(al[0][1], fn, 1)
         if ok:
             ok = _elem_of_param(sl.inline_deep(al[0][0]), fn, 1)
             why = 'extended by something else than the elements of the argument: %s' % _vs(al[0][0])
@@ -677,15 +761,20 @@ def check_push_each(prog, sl, rep, fn, field, subject):
     rep.check(ok, 'R6', subject, where, 'appends every element of its argument, in order, to .%s (%s)' % (field, how), '%s: %s' % (fn.path.split('::')[-1], why))
 
 
-def check_set(prog, sl, rep, fn, field, subject, value_ok=None, sites=None):
+def check_set(prog, sl, rep, fn, field, subject, value_ok=None, sites=None, slots=None):
     """the field is unconditionally assigned the argument (value_ok(v) overrides `is parameter 1`)"""
+    if _unclear(rep, fn, field, subject, slots, container=False):
+        return
+    if value_ok is None and slots is not None and field in getattr(slots, 'lazy', ()):
+        # a lazy slot reads back Some(x) as x
+        value_ok = lambda val: is_param(lazy_decode(val, ('unknown', 'fallback')), fn, 1)
     S = Summary(prog, sl, fn)
     where = '%s:%d' % (fn.file, fn.line)
     rep.analysed(fn)
     asg = S.self_assigns()
     ends = sites if sites is not None else fn.return_blocks()
-    ok = len(asg) == 1 and fpath(asg[0][0])[1][-1:] == [field]
-    why = '.%s is not assigned exactly once' % field
+    ok = len(asg) == 1 and on_slot(fpath(asg[0][0])[1], field, slots)
+    why = '%s is not assigned exactly once' % _slot_str(field, slots)
     if ok:
         tgt, val, bb = asg[0]
         ok = bool(ends) and all(fn.dominates(bb, r) for r in ends)
@@ -701,24 +790,27 @@ def check_set(prog, sl, rep, fn, field, subject, value_ok=None, sites=None):
 
 
 def check_snapshot(prog, sl, rep, fn, state_adt, subject):
-    """build(): every field of the returned state is the accumulated field of the same name"""
+    """build(): every field of the returned state is read, untouched, from a slot of the receiver of its own (a field path
+    from self; no two fields from the same or overlapping places).  Which private place that is — `self.process.args`,
+    `self.args`, `self.tunables.args`, a private name — is the builder's business: the adders, setters and new() are
+    checked against the very same slots (state_slots / on_slot)"""
     where = '%s:%d' % (fn.file, fn.line)
     rep.analysed(fn)
-    ret = sl.inline_deep(sl.local(fn, 0))
-    bad = []
-    parents = set()
-    for f in _fields(prog, state_adt):
-        fv = peel(sl._field(strip(ret), f['name']))
-        r, names = fpath(fv)
-        if not (r[0] == 'param' and r[1] == fn.path and r[2] == 0 and names[-1:] == [f['name']]):
-            bad.append('%s <- %s' % (f['name'], _vs(fv)))
-        parents.add(tuple(names[:-1]))
+    slots, bad = read_slots(prog, sl, fn, state_adt)
+    unclear = sorted(slots.unclear.values())
+    for a, pa in sorted(slots.items()):
+        for b_, pb in sorted(slots.items()):
+            if a < b_ and (pa[:len(pb)] == pb or pb[:len(pa)] == pa):
+                bad.append('%s and %s are both read from self.%s' % (a, b_, '.'.join(min(pa, pb, key=len))))
     S = Summary(prog, sl, fn)
     touched = len(S.may) + len(S.assigns) + len(S.extends) + len(S.helper_stores)
     if touched:
         bad.append('%d container mutation(s) / store(s) between the accumulated state and the returned value' % touched)
-    ok = not bad and len(parents) == 1 and bool(_fields(prog, state_adt))
-    rep.check(ok, 'R6', subject, where, 'build() returns every accumulated field', 'build() does not hand out the accumulated state: %s' % (bad or sorted(parents)))
+    ok = not bad and bool(_fields(prog, state_adt))
+    if ok and unclear:
+        rep.unproven('R6', subject, where, 'build() computes part of the returned state from the accumulated state in a way that is not modelled: %s' % (unclear,))
+        return
+    rep.check(ok, 'R6', subject, where, 'build() returns every accumulated field', 'build() does not hand out the accumulated state: %s' % (bad,))
 
 
 def _single_collect_of(sl, v, fn, idx):
@@ -749,6 +841,12 @@ def r6(prog, sl, rep):
     n = 0
     for b, (state, methods) in BUILDER_METHODS.items():
         short = b.split('::')[-1]
+        slots = state_slots(prog, sl, b, state) if state else None
+        if b == BUILDER:
+            # the open group of BuildPlanBuilder is wherever its two adders append (current_slots); R4 ties or() / build() to
+            # the same two places (or/push_back: the appended group record carries exactly them)
+            P_, R_ = current_slots(prog, sl)
+            slots = Slots({'current_provides': P_, 'current_requires': R_})
         found = {}
         for p_, f in prog.fns.items():
             if p_.startswith(b + '::') and '::' not in p_[len(b) + 2:] and f.kind != 'Closure':
@@ -763,11 +861,11 @@ def r6(prog, sl, rep):
                 continue
             n += 1
             if spec[0] == 'push':
-                check_push(prog, sl, rep, f, spec[1], subj)
+                check_push(prog, sl, rep, f, spec[1], subj, slots)
             elif spec[0] == 'push_each':
-                check_push_each(prog, sl, rep, f, spec[1], subj)
+                check_push_each(prog, sl, rep, f, spec[1], subj, slots)
             elif spec[0] == 'set':
-                check_set(prog, sl, rep, f, spec[1], subj)
+                check_set(prog, sl, rep, f, spec[1], subj, slots=slots)
             elif spec[0] == 'snapshot':
                 check_snapshot(prog, sl, rep, f, state, subj)
             elif spec[0] == 'init':
@@ -782,10 +880,13 @@ def r6(prog, sl, rep):
 
 
 def check_init(prog, sl, rep, fn, builder, subject):
-    """new(): the derived Default of the builder (every list empty) — or an explicit literal of empty fields"""
+    """new(): the derived Default of the builder (every list empty) — or an explicit literal of empty fields; field stores
+    made after that value was built are applied (fold_updates) and nothing is appended on the way"""
     where = '%s:%d' % (fn.file, fn.line)
     rep.analysed(fn)
-    v = peel(sl.local(fn, 0))
+    S = Summary(prog, sl, fn)
+    raw = fold_updates(fn, S, sl.local(fn, 0))
+    v = peel(raw)
     ok = v[0] == 'call' and v[1] in ('<%s as std::default::Default>::default' % builder, 'std::default::Default::default')
     if ok and v[1] in prog.fns:
         # a hand-written Default impl: must itself be all-empty
@@ -793,7 +894,19 @@ def check_init(prog, sl, rep, fn, builder, subject):
         ok = dv[0] == 'agg' and all(_all_empty(sl, x) for _, x in dv[3])
     elif not ok and v[0] == 'agg':
         ok = all(_all_empty(sl, x) for _, x in v[3])
-    rep.check(ok, 'R6', subject, where, 'a new builder is empty', 'a new builder does not start from the empty state: %s' % _vs(v))
+    # stores into a value that is not a literal here (`let mut b = Self::default(); b.labels = ..; b`): only of empties
+    r = raw
+    while r[0] in ('unwrap', 'updated'):
+        if r[0] == 'updated':
+            ok = ok and all(_all_empty(sl, uv) for _, uv in r[2])
+        r = r[1]
+    touched = len(S.may) + len(S.extends) + len(S.helper_stores)
+    ok = ok and not touched
+    und = undecided(raw)
+    if ok and und:
+        rep.unproven('R6', subject, where, 'the initial state is not decided: %s' % ', '.join(und))
+        return
+    rep.check(ok, 'R6', subject, where, 'a new builder is empty', 'a new builder does not start from the empty state: %s%s' % (_vs(raw), ' (+ %d container mutation(s))' % touched if touched else ''))
 
 
 def _all_empty(sl, v):
@@ -803,31 +916,291 @@ def _all_empty(sl, v):
     return v[0] == 'agg' and all(_all_empty(sl, x) for _, x in v[3])
 
 
+def state_slots(prog, sl, builder, state_adt):
+    """{field of the built record: field path from the builder by which build() reads it} — the builder's private layout
+    (an embedded record `self.process.args`, one private field per slot `self.args`, a nested group, private names of its
+    own) is whatever build() reads the built value from; no entry for a field build() does not hand out from the receiver
+    (R6/<builder>/build reports it).  Adders / setters / new() are then stated on these slots (on_slot), which also ties
+    them to build(): a method that mutates a private field build() never reads is not an adder"""
+    b = prog.fns.get(builder + '::build')
+    if b is None:
+        return Slots()
+    return read_slots(prog, sl, b, state_adt)[0]
+
+
+class Slots(dict):
+    """field -> path; .unclear: fields build() computes from the receiver in a way that is not modelled (methods on them are
+    UNPROVEN, not VIOLATED: where their slot is and how it is read back is not known); .lazy: fields kept as an Option that
+    build() reads with a fallback (`self.s.unwrap_or(D)`): the slot holds None for D and Some(x) for x"""
+    unclear = ()
+    lazy = ()
+
+
+def _lazy_read(sl, fn, fv):
+    """fv = `<self.path>.unwrap_or(D)` / `.unwrap_or_else(|| D)` with D independent of the receiver: (path, D)"""
+    from .lib.value import walk
+    if not (fv[0] == 'call' and len(fv[2]) == 2 and _re.match(r'^std::option::Option::<.*>::unwrap_or(_else)?$', fv[1])):
+        return None
+    r, names = fpath(peel(fv[2][0]))
+    if not (r[0] == 'param' and r[1] == fn.path and r[2] == 0 and names):
+        return None
+    d = fv[2][1]
+    if fv[1].endswith('_else'):
+        d = sl.apply_closure(strip(d), ()) if strip(d)[0] == 'closure' else None
+        if d is None:
+            return None
+    d = strip(sl.inline_deep(d))
+    if any(x[0] in ('param', 'unknown', 'phi') for x in walk(d)):
+        return None
+    return tuple(names), d
+
+
+def lazy_decode(v, d):
+    """what build() reads from a lazy slot holding v"""
+    v = peel(v)
+    if v[0] == 'agg' and v[1] == 'std::option::Option':
+        if v[2] == 'None':
+            return d
+        if v[2] == 'Some' and len(v[3]) == 1:
+            return v[3][0][1]
+    return ('unknown', 'not an Option literal: %s' % _vs(v))
+
+
+def copy_source(sl, fv):
+    """fv without element-wise copying: `xs.iter().cloned().collect()` / `xs.iter().map(Clone::clone).collect()` — every
+    element of xs, unfiltered, in order, unchanged — is xs (iterator algebra)"""
+    fv = peel(fv)
+    if fv[0] == 'call' and fv[1] in iters.COLLECTING:
+        al = iters.alts(sl, fv)
+        if len(al) == 1 and not al[0][2] and al[0][1] is not None \
+                and peel(sl.inline_deep(al[0][0])) == peel(iters.elem_of(al[0][1])) \
+                and not any(x[0] == 'call' and x[1].split('::')[-1] in REORDER for x in walk(fv)):
+            return peel(al[0][1])
+    return fv
+
+
+def read_slots(prog, sl, fn, state_adt):
+    """(Slots, bad): how build() = fn reads each field of the built record"""
+    from .lib.value import walk
+    ret = sl.inline_deep(sl.local(fn, 0))
+    slots, unclear, bad, lazy = Slots(), {}, [], {}
+    for f in _fields(prog, state_adt):
+        fv = copy_source(sl, sl._field(strip(ret), f['name']))
+        r, names = fpath(fv)
+        if r[0] == 'param' and r[1] == fn.path and r[2] == 0 and names:
+            slots[f['name']] = tuple(names)
+        elif _lazy_read(sl, fn, fv) is not None:
+            slots[f['name']], lazy[f['name']] = _lazy_read(sl, fn, fv)
+        elif fv[0] in ('call', 'phi', 'select', 'unknown') and any(x[0] == 'param' and x[1] == fn.path and x[2] == 0 for x in walk(fv) if len(x) > 2):
+            # computed from the receiver in a way that is not modelled (not a breach by itself: undecided) ...
+            unclear[f['name']] = '%s <- %s' % (f['name'], _vs(fv))
+        else:
+            # ... vs. a value that does not come from the accumulated state at all
+            bad.append('%s <- %s' % (f['name'], _vs(fv)))
+    slots.unclear = unclear
+    slots.lazy = lazy
+    return slots, bad
+
+
+def _unclear(rep, fn, field, subject, slots, container=False):
+    if container and slots is not None and field in getattr(slots, 'lazy', ()):
+        rep.analysed(fn)
+        rep.unproven('R6', subject, '%s:%d' % (fn.file, fn.line), 'the list %s is kept as an Option that build() reads with a fallback: appending to it is not modelled' % field)
+        return True
+    if slots is not None and field in getattr(slots, 'unclear', ()):
+        rep.analysed(fn)
+        rep.unproven('R6', subject, '%s:%d' % (fn.file, fn.line), 'build() reads %s in a way that is not modelled (%s): which private state this method has to change is not decided'
+                     % (field, slots.unclear[field]))
+        return True
+    return False
+
+
+def on_slot(names, field, slots):
+    """the place `self.<names>` is the slot of `field`: the place build() reads it from — by the field's own name when
+    build() does not tell (builders without a state record; a build() R6 reports anyway)"""
+    if slots and field in slots:
+        return list(names) == list(slots[field])
+    return list(names[-1:]) == [field]
+
+
+FOLD = 'fold: '
+
+
+def fold_updates(fn, S, v, used=None):
+    """Record literals with the field stores made after they were built applied: `let mut p = P { a, b: X }; p.b = Y; p` is
+    P { a, b: Y }.  The slicer lists such stores flow-insensitively (('updated', base, ((projection, value)..))), so a store
+    is applied only when it is the one store to that field and its block is on every path to the return (Summary.assigns);
+    otherwise the field is ('unknown', 'fold: ..') — undecided, never the stale literal value.  `used` collects the stores
+    that were accounted for this way"""
+    k = v[0]
+    if k == 'agg':
+        return ('agg', v[1], v[2], tuple((n, fold_updates(fn, S, x, used)) for n, x in v[3]))
+    if k == 'unwrap' and len(v) == 2:
+        return ('unwrap', fold_updates(fn, S, v[1], used))
+    if k != 'updated':
+        return v
+    base = fold_updates(fn, S, v[1], used)
+    if base[0] != 'agg':
+        return (v[0], base) + tuple(v[2:])
+    rets = fn.return_blocks()
+    # (drop elaboration repeats a store of a value with a destructor in the unwind path: the same store, listed twice)
+    ups = list(dict.fromkeys(v[2]))
+    projs = [tuple(x for x in proj.split('.') if x) for proj, _ in ups]
+    for names, (proj, uv) in zip(projs, ups):
+        why = None
+        if not names or not all(_re.match(r'^\w+$', n) for n in names):
+            why = 'store through %s' % proj
+        elif sum(1 for o in projs if o[:len(names)] == names or names[:len(o)] == o) != 1:
+            why = '%s is assigned more than once' % proj
+        else:
+            # the store site: in fn itself, or in the private function the literal was inlined from (its value is then
+            # already expressed in fn's terms: the site is identified by the record type and the field)
+            st = []
+            for g, asg in _store_sites(S, fn):
+                for a in asg:
+                    r, an = fpath(a[0])
+                    if r[0] == 'agg' and r[1] == base[1] and tuple(an) == names:
+                        st.append((g, a))
+            if len(st) != 1 or not st[0][0].return_blocks() or not all(st[0][0].dominates(st[0][1][2], r) for r in st[0][0].return_blocks()):
+                why = '%s is assigned on some paths only' % proj if st else 'the store to %s was not found' % proj
+            elif used is not None:
+                used.append(st[0][1])
+        nv = fold_updates(fn, S, uv, used) if why is None else ('unknown', FOLD + why)
+        base = _set_field(base, names or ('?',), nv)
+    return base
+
+
+def assigns_of(sl, fn):
+    """[(target place, value, block)] of the field stores of fn on its normal paths"""
+    out = []
+    normal = fn.reachable(0)
+    for key, defs in fn.defs().items():
+        if not isinstance(key, tuple):
+            continue
+        for d in defs:
+            if d[1] not in normal:
+                continue    # the copy of a store in an unwind (drop elaboration) block
+            tgt = _target_of(sl, fn, d[4])
+            if d[0] == 'stmt':
+                val = sl._rvalue(fn, d[3], set(), 0, (d[1], d[2]))
+            elif d[0] == 'call':
+                val = sl._call_value(fn, d[3], set(), 0)
+            else:
+                val = ('unknown', d[0])
+            out.append((tgt, val, d[1]))
+    return out
+
+
+def _store_sites(S, fn):
+    if getattr(S, '_sites', None) is None:
+        S._sites = [(fn, S.assigns)]
+        for g in dict(S.prog.reach([fn])).values():
+            if g.path != fn.path and g.crate == fn.crate:
+                S._sites.append((g, assigns_of(S.sl, g)))
+    return S._sites
+
+
+def _set_field(agg, names, nv):
+    if agg[0] != 'agg' or not any(n == names[0] for n, _ in agg[3]):
+        return ('unknown', FOLD + 'store to .%s of something that is not a record literal' % '.'.join(names))
+    return ('agg', agg[1], agg[2], tuple((n, (nv if len(names) == 1 else _set_field(x, names[1:], nv)) if n == names[0] else x) for n, x in agg[3]))
+
+
+def undecided(v):
+    """the reasons for which parts of a folded value are not decided"""
+    from .lib.value import walk
+    return [x[1][len(FOLD):] for x in walk(v) if x[0] == 'unknown' and len(x) > 1 and isinstance(x[1], str) and x[1].startswith(FOLD)]
+
+
+def _slot_str(field, slots):
+    if slots and field in slots:
+        return 'self.%s (where build() reads %s from)' % ('.'.join(slots[field]), field)
+    return '.%s' % field
+
+
+def _project(sl, v, names):
+    for n in names:
+        v = peel(v)
+        if v[0] != 'agg':
+            return ('unknown', 'no literal to read .%s from' % n)
+        v = sl._field(v, n)
+    return v
+
+
+def _by_name(v, name, _depth=0):
+    """the values of the data field `name` in a (nested) record literal: used when build() does not say where the slot is"""
+    v = peel(v)
+    if v[0] != 'agg' or _depth > 3:
+        return []
+    out = [x for n, x in v[3] if n == name]
+    if not out:
+        for _, x in v[3]:
+            out += _by_name(x, name, _depth + 1)
+    return out
+
+
 def check_process_new(prog, sl, rep, fn, subject):
+    """new(type, command): the INITIAL STATE of the builder, read slot by slot the way build() reads it (state_slots), is
+    {type, every command element in order, no args, not default, app directory} — whether the builder embeds a Process
+    literal or keeps one private field per slot"""
     where = '%s:%d' % (fn.file, fn.line)
     rep.analysed(fn)
-    ret = peel(sl.inline_deep(sl.local(fn, 0)))
-    pv = peel(ret[3][0][1]) if ret[0] == 'agg' and len(ret[3]) == 1 else ret
+    S = Summary(prog, sl, fn)
+    ret = peel(fold_updates(fn, S, sl.inline_deep(sl.local(fn, 0))))
     bad = []
-    if pv[0] != 'agg' or pv[1] != LAUNCH + 'Process':
-        bad.append('no Process literal: %s' % _vs(pv))
+    state = LAUNCH + 'Process'
+    names = [f['name'] for f in _fields(prog, state)]
+    slots = state_slots(prog, sl, LAUNCH + 'ProcessBuilder', state)
+    fl = {}
+    if ret[0] != 'agg' or not names:
+        bad.append('no Process literal: %s' % _vs(ret))
     else:
-        fl = dict(pv[3])
-        if not is_param(fl.get('type', ('unknown',)), fn, 0):
+        for n in names:
+            if n in slots:
+                fl[n] = _project(sl, ret, slots[n])
+                if n in slots.lazy:
+                    fl[n] = lazy_decode(fl[n], slots.lazy[n])
+            else:
+                cands = _by_name(ret, n)
+                fl[n] = cands[0] if len(cands) == 1 else ('unknown', 'slot %s not found in the new builder' % n)
+        if all(strip(x)[0] == 'unknown' for x in fl.values()):
+            bad.append('no Process literal: %s' % _vs(ret))
+    # fields build() computes in a way that is not modelled: their initial value cannot be read back -> UNPROVEN below
+    unclear = sorted(n for n in names if n in getattr(slots, 'unclear', ()))
+    # ... and fields stored to after the literal was built on some paths only / repeatedly (fold_updates)
+    und = {n: undecided(fl[n]) for n in fl if undecided(fl[n])}
+    unclear = sorted(set(unclear) | set(und))
+    if not bad:
+        if 'type' not in unclear and not is_param(fl.get('type', ('unknown',)), fn, 0):
             bad.append('type <- %s' % _vs(fl.get('type')))
         el = _single_collect_of(sl, fl.get('command', ('unknown',)), fn, 1)
-        if el is None or not _elem_of_param(sl.inline_deep(el), fn, 1):
+        if 'command' not in unclear and (el is None or not _elem_of_param(sl.inline_deep(el), fn, 1)):
             bad.append('command is not every element of the argument, in order: %s' % _vs(fl.get('command')))
-        if not is_empty_value(fl.get('args', ('unknown',))):
+        if 'args' not in unclear and not is_empty_value(fl.get('args', ('unknown',))):
             bad.append('args <- %s' % _vs(fl.get('args')))
-        if strip(fl.get('default', ('unknown',))) != ('const', False):
+        tys = {f['name']: f.get('ty') for f in _fields(prog, state)}
+
+        def is_class(v, cls, ty):
+            """v is a nullary constructor call (`bool::default()`, `WorkingDirectory::default()`, a private const fn) that
+            produces a value of that class (default_class: std ones by type, workspace ones by what they return)"""
+            v = strip(v)
+            return v[0] == 'call' and not v[2] and default_class(prog, sl, v[1], ty) == cls
+        dv = strip(fl.get('default', ('unknown',)))
+        if 'default' not in unclear and dv != ('const', False) and not is_class(dv, ('bool', False), tys.get('default') or 'bool'):
             bad.append('default <- %s' % _vs(fl.get('default')))
         wd = strip(fl.get('working_directory', ('unknown',)))
-        if not (wd[0] == 'agg' and wd[2] == 'App'):
+        if 'working_directory' not in unclear and not (wd[0] == 'agg' and wd[2] == 'App') \
+                and not is_class(wd, ('variant', LAUNCH + 'WorkingDirectory', frozenset({'App'})), tys.get('working_directory')):
             bad.append('working_directory <- %s' % _vs(wd))
-    S = Summary(prog, sl, fn)
+        for n in names:
+            if n not in ('type', 'command', 'args', 'default', 'working_directory'):
+                bad.append('unmodelled Process field %s' % n)
     if S.may or S.extends or S.helper_stores:
         bad.append('%d container mutation(s) on the way' % (len(S.may) + len(S.extends) + len(S.helper_stores)))
+    if not bad and unclear:
+        rep.unproven('R6', subject, where, 'the initial value of %s is not decided: %s' % (unclear, '; '.join('%s: %s' % (n, ', '.join(w)) for n, w in sorted(und.items()))
+                                                                                              or 'build() reads it in a way that is not modelled'))
+        return
     rep.check(not bad, 'R6', subject, where, 'new(type, command) = {type, every command element, no args, not default, app directory}',
               'ProcessBuilder::new does not build the process it was given: %s' % bad)
 
@@ -843,12 +1216,19 @@ def check_data_ctors(prog, sl, rep):
             return
         f = fs[0]
         rep.analysed(f)
-        v = peel(sl.inline_deep(sl.local(f, 0)))
+        S0 = Summary(prog, sl, f)
+        used = []
+        raw = fold_updates(f, S0, sl.inline_deep(sl.local(f, 0)), used)
+        v = peel(raw)
         bad = pred(f, v)
         if not bad and not own_mutation_check:
-            S0 = Summary(prog, sl, f)
-            if S0.may or S0.extends or S0.assigns or S0.helper_stores:
-                bad = 'the value is modified after it was built (%d mutation(s))' % (len(S0.may) + len(S0.extends) + len(S0.assigns) + len(S0.helper_stores))
+            # (field stores into the literal that fold_updates applied are part of the value just checked)
+            left = [a for a in S0.assigns if not any(a is u for u in used)]
+            if S0.may or S0.extends or left or S0.helper_stores:
+                bad = 'the value is modified after it was built (%d mutation(s))' % (len(S0.may) + len(S0.extends) + len(left) + len(S0.helper_stores))
+        if bad and undecided(raw):
+            rep.unproven('R6', subject, '%s:%d' % (f.file, f.line), 'the constructed value is not decided: %s' % ', '.join(undecided(raw)))
+            return
         rep.check(not bad, 'R6', subject, '%s:%d' % (f.file, f.line), ok_msg, '%s does not carry its argument: %s' % (f.path, bad))
 
     def provide(f, v):
